@@ -212,6 +212,16 @@ def callee_item_cost(eng, mc, call, ai):
     return best, "item loop in the callee"
 
 
+RAW_LEN_CALLS = {"draco::DecoderBuffer::Decode", "draco::DecoderBuffer::Advance", "draco::DecoderBuffer::Init",
+                 "draco::DecoderBuffer::Peek", "memcpy", "std::memcpy"}
+RAW_LEN_SHORT = {"read_init", "ans_read_init", "rans_read_init", "Init", "StartDecoding"}
+try:
+    from .core import load_table as _lt
+    G1_ALLOW = _lt("c01.json").get("g1_allow", {})
+except Exception:       # table optional
+    G1_ALLOW = {}
+
+
 def justify(eng, fn, guard, mc):
     """Returns (ok, detail).  Every use of the guarded count that the passing
     edge dominates must consume >= k bytes per item."""
@@ -243,7 +253,32 @@ def justify(eng, fn, guard, mc):
                 uses.append(("count passed to %s at %s (%s)" % (
                     strip_targs(n.get("fn") or ""), fn.site(n.get("loc", "")), how), c))
     if k == 1:
-        return True, "scale 1: a byte size, or at least one byte per item"
+        # a byte length: the value is the size operand of a raw consumption of the input after the guard
+        for n, cb, rk, ev in fn.calls():
+            base = strip_targs(n.get("fn") or "")
+            short = base.rsplit("::", 1)[-1]
+            if not (base in RAW_LEN_CALLS or short in RAW_LEN_SHORT):
+                continue
+            if not (fn.edge_dominates((b.id, succ), cb) or cb == succ):
+                continue
+            if any(ft.labels(a, cb) & labs for a in n.get("args", [])):
+                return True, "scale 1: a byte length (size operand of %s)" % base.replace("draco::", "")
+        bad = [(u, c) for u, c in uses if c < 1]
+        if uses and not bad:
+            return True, "scale 1 item count: every use consumes >= 1 byte per item: %s" % (
+                "; ".join("%s: %d" % (u, c) for u, c in uses))
+        var = None
+        for lab in labs:
+            info = ft.label_info.get(lab) or eng.label_info.get(lab) or {}
+            var = var or info.get("var")
+        akey = "%s|%s" % (fn.base, var or "?")
+        if akey in G1_ALLOW:
+            return True, "scale 1 item count, reviewed: " + G1_ALLOW[akey]
+        return False, "`%s` compares an item count (not the size operand of any raw read) with the remaining " \
+                      "bytes, and %s: entropy-coded or constant items take less than a byte each, so streams the " \
+                      "writer produces are rejected" % (
+                          src[:60], "; ".join("%s consumes >= %d" % (u, c) for u, c in bad) if bad else
+                          "no per-item consumption of at least one byte follows in this function")
     if not uses:
         return True, "no item loop or consuming callee uses the count after the guard"
     bad = [(u, c) for u, c in uses if c < k]
